@@ -94,6 +94,6 @@ def rejected(E, cfg):
     idx = E.choice('invalid', cfg['steps'])
     name, req, exc, fn, syms = D.INVALID[idx]
     D.ensure(L, set(req))
-    exc_cls = {'ValueError': ValueError, 'TypeError': TypeError}[exc]
+    exc_cls = {'ValueError': ValueError, 'TypeError': TypeError, 'AssertionError': AssertionError}[exc]
     C.expect_raises(E, lambda: fn(L), exc_cls, 'invalid-declaration-rejected:' + name, [name])
     D.check_directory(E, L, a, 'after-rejection')
